@@ -123,6 +123,7 @@ theorem nfInv_setBefore {e : Expr} (h : e.nfInv) {b : List Trivia} (hb : Alt b) 
   | selOr => exact h.elim
   | lam => exact h.elim
   | un => exact h.elim
+  | bin => exact h.elim
 
 theorem nfInv_addAfter {e : Expr} (h : e.nfInv) (hc : closedT (e.effAfter false)) {ts : List Trivia} (hts : Alt ts) :
     (e.addAfter ts).nfInv := by
@@ -143,6 +144,7 @@ theorem nfInv_addAfter {e : Expr} (h : e.nfInv) (hc : closedT (e.effAfter false)
   | selOr => exact h.elim
   | lam => exact h.elim
   | un => exact h.elim
+  | bin => exact h.elim
 
 theorem closedT_append {a b : List Trivia} (ha : closedT a) (hb : closedT b) : closedT (a ++ b) := by
   rcases hb with h | ⟨c, hc⟩
@@ -601,6 +603,7 @@ theorem cst_nf : (c : Cst) → c.wf = true → c.basic = true → ∀ (e : Expr)
   | .selOr .., _, hbs, _, _ => by simp [Cst.basic] at hbs
   | .lam .., _, hbs, _, _ => by simp [Cst.basic] at hbs
   | .un .., _, hbs, _, _ => by simp [Cst.basic] at hbs
+  | .bin .., _, hbs, _, _ => by simp [Cst.basic] at hbs
   | .paren its cg, hwf, hbs, e, hp => by
     simp only [Cst.wf, Bool.and_eq_true, beq_iff_eq] at hwf
     simp only [Cst.parse] at hp
@@ -946,6 +949,7 @@ theorem inlineClean_of_B : (e : Expr) → e.inlineCleanB = true → e.inlineClea
   | .selOr .., h => by simp [Expr.inlineCleanB] at h
   | .lam .., h => by simp [Expr.inlineCleanB] at h
   | .un .., h => by simp [Expr.inlineCleanB] at h
+  | .bin .., h => by simp [Expr.inlineCleanB] at h
 theorem allInlineClean_of_B : (es : List Expr) → allInlineCleanB es = true → allInlineClean es
   | [], _ => trivial
   | e :: rest, h => by
